@@ -2,6 +2,9 @@ import json
 claimed = {
  "C01": ("model_checking", "TLC checks exhaustively, inside the U_small bounds, that the cursor machine (Codec.tla, shaped after bp.py) refines the documented layout (Wire.tla: Enc/Bytes); every encode of the real generated Python code on seeded random schemas x values is recorded as a trace and TLC decides each recorded (value, bytes) pair against Wire!Enc.", "6 C01", "TLA+ Wire/Codec spec model-checked by TLC + trace validation of recorded Python encodes against the spec"),
  "C02": ("model_checking", "TLC checks Dec(Enc(v)) = v and the decode machine against Wire!Dec on U_small (the ahead*cap skip formula is kept as a negative control that must be refuted); every encode->decode->re-encode of the real Python code (random schemas, plus every enum width x bit offset) is recorded and TLC decides each event with Wire!Dec / Wire!Enc.", "6 C02", "TLA+ Wire/Codec spec model-checked by TLC + trace validation of recorded Python round trips"),
+ "C03": ("model_checking", "Same cursor machine (Codec.tla) model-checked against Wire.tla; generated C + lib/c/bitproto.c is built with gcc per (optimisation level, build layout), driven through ctypes on seeded random schemas x values, and TLC decides every recorded Encode (memory image -> bytes), Decode (bytes -> memory image on a zeroed struct) and the storage width of every leaf against Wire!Enc/Dec/Storage.", "6 C03", "TLA+ Wire/Codec spec model-checked by TLC + trace validation of recorded C Encode/Decode calls"),
+ "C05": ("model_checking", "TLC explores every history of <= 1-2 permitted evolution steps over U_small and checks that the decode machine of the older schema returns the restriction of the newer value (two wrong skip formulas are kept as negative controls that must be refuted); random evolution chains are compiled for real, newer-schema bytes (checked against Wire!Enc) are decoded by older-schema Python and C code and TLC decides each result against Wire!RestrictV/Dec.", "6 C05", "TLA+ Codec/Evolution model-checked by TLC + trace validation of cross-version decodes (Python and C)"),
+ "C07": ("model_checking", "Design-level containment/footprint invariants of Codec.tla with garbage above every leaf (OnlyOwnSlot, EncRefines) are model-checked; size constants of every message in C/Go/Python are decided against NBytes by TLC; Python encodes of out-of-range integers and C encodes of arbitrary storage contents are decided against Enc(Trunc(raw)); C Encode/Decode run with struct and buffer flush against PROT_NONE pages (both ends) and under ASan/UBSan on exact-size heap objects, any fault becoming an event the spec has no action for.", "6 C07", "TLA+ spec model-checked by TLC + trace validation; guard-page and ASan/UBSan fault events"),
 }
 checks = []
 for pid, (cat, text, ref, tech) in sorted(claimed.items()):
